@@ -200,7 +200,7 @@ Proof.
   destruct (norm_fields s a Ha) as (As & Ac & Ar & Aw & Ah).
   destruct (norm_fields s b Hb) as (Bs & Bc & Br & Bw & Bh).
   destruct Ha as (Ax & Ax' & Ay & Ay'). destruct Hb as (Bx & Bx' & By & By').
-  unfold op_inter, binop, union_intersection.
+  unfold op_inter, binop, union_intersection, ui_core.
   rewrite As, Bs, Ac, Bc, Ar, Br, Aw, Bw, Ah, Bh, same_sheet_test, same_sheet_pick.
   replace (Z.min (x1 a + (x2 a - x1 a + 1)) (x1 b + (x2 b - x1 b + 1)) - 1)
     with (Z.min (x2 a) (x2 b)) by lia.
@@ -220,7 +220,7 @@ Proof.
   destruct (norm_fields s a Ha) as (As & Ac & Ar & Aw & Ah).
   destruct (norm_fields s b Hb) as (Bs & Bc & Br & Bw & Bh).
   destruct Ha as (Ax & Ax' & Ay & Ay'). destruct Hb as (Bx & Bx' & By & By').
-  unfold op_union, binop, union_intersection.
+  unfold op_union, binop, union_intersection, ui_core.
   rewrite As, Bs, Ac, Bc, Ar, Br, Aw, Bw, Ah, Bh, same_sheet_test, same_sheet_pick.
   replace (Z.max (x1 a + (x2 a - x1 a + 1)) (x1 b + (x2 b - x1 b + 1)) - 1)
     with (Z.max (x2 a) (x2 b)) by lia.
@@ -271,7 +271,7 @@ Qed.
 Lemma ui_comm mn mx (Hmn : forall p q, mn p q = mn q p) (Hmx : forall p q, mx p q = mx q p) x y :
   union_intersection mn mx x (VA y) = union_intersection mn mx y (VA x).
 Proof.
-  unfold union_intersection.
+  unfold union_intersection, ui_core.
   rewrite (Hmn (a_col y)), (Hmn (a_row y)), (Hmx (a_col y + width y)), (Hmx (a_row y + height y)).
   rewrite (str_eqb_sym (a_sheet y)).
   destruct (a_sheet x) as [|cx sx] eqn:Ex; destruct (a_sheet y) as [|cy sy] eqn:Ey; cbn [nonempty andb negb];
@@ -311,27 +311,59 @@ Proof.
   do 3 f_equal. apply rect_eq; cbn; lia.
 Qed.
 
-(* associativity of & : when neither inner intersection is empty.  (When one
-   is, the outer operator receives the text "#NULL!" and raises — see
-   Refuted/C11_assoc.v.) *)
-Lemma inter_assoc_partial s a b c : wf a -> wf b -> wf c ->
-  empty_rect (meet_rect a b) = false -> empty_rect (meet_rect b c) = false ->
+(* an error-code operand, on either side, is the result (of & and of ** ) *)
+Lemma ui_error mn mx x e : is_error_code e = true ->
+  union_intersection mn mx x (VE e) = Ok (VE e).
+Proof. intros H. unfold union_intersection, create. rewrite H. reflexivity. Qed.
+Lemma error_operand e x : is_error_code e = true ->
+  op_inter (VA x) (VE e) = Ok (VE e) /\ op_inter (VE e) (VA x) = Ok (VE e)
+  /\ op_union (VA x) (VE e) = Ok (VE e) /\ op_union (VE e) (VA x) = Ok (VE e).
+Proof. intros H. unfold op_inter, op_union, binop. rewrite !ui_error by exact H. repeat split. Qed.
+Lemma null_is_code : is_error_code NULL_ERROR = true.
+Proof. reflexivity. Qed.
+
+(* associativity of & on rectangles of one sheet, unconditional: an empty
+   inner intersection is #NULL!, which the outer operator hands on *)
+Lemma inter_assoc s a b c : wf a -> wf b -> wf c ->
   bind (op_inter (VA (norm s a)) (VA (norm s b))) (fun x => op_inter x (VA (norm s c)))
   = bind (op_inter (VA (norm s b)) (VA (norm s c))) (fun x => op_inter (VA (norm s a)) x).
 Proof.
-  intros Ha Hb Hc Eab Ebc. rewrite !inter_value by assumption. unfold meet_val.
-  rewrite Eab, Ebc. cbn [bind].
-  rewrite !inter_value by (try apply meet_wf; assumption).
-  unfold meet_val.
+  intros Ha Hb Hc. rewrite !inter_value by assumption. unfold meet_val.
+  destruct (error_operand NULL_ERROR (norm s c) null_is_code) as (_ & EL & _).
+  destruct (error_operand NULL_ERROR (norm s a) null_is_code) as (ER & _).
   assert (E : meet_rect (meet_rect a b) c = meet_rect a (meet_rect b c)) by (apply rect_eq; cbn; lia).
-  rewrite E. reflexivity.
+  destruct (empty_rect (meet_rect a b)) eqn:Eab; destruct (empty_rect (meet_rect b c)) eqn:Ebc; cbn [bind].
+  - rewrite EL, ER. reflexivity.
+  - rewrite EL, inter_value by (try apply meet_wf; assumption). unfold meet_val.
+    replace (empty_rect (meet_rect a (meet_rect b c))) with true; [reflexivity|].
+    symmetry. unfold empty_rect in *. cbn [meet_rect x1 x2 y1 y2] in *.
+    rewrite orb_true_iff, !Z.ltb_lt in *. lia.
+  - rewrite ER, inter_value by (try apply meet_wf; assumption). unfold meet_val.
+    replace (empty_rect (meet_rect (meet_rect a b) c)) with true; [reflexivity|].
+    symmetry. unfold empty_rect in *. cbn [meet_rect x1 x2 y1 y2] in *.
+    rewrite orb_true_iff, !Z.ltb_lt in *. lia.
+  - rewrite !inter_value by (try apply meet_wf; assumption). unfold meet_val. rewrite E. reflexivity.
+Qed.
+(* ... and the three-way result is the set-theoretic one *)
+Lemma inter_three s a b c : wf a -> wf b -> wf c ->
+  bind (op_inter (VA (norm s a)) (VA (norm s b))) (fun x => op_inter x (VA (norm s c)))
+  = Ok (if empty_rect (meet_rect (meet_rect a b) c) then VE NULL_ERROR
+        else VA (norm s (meet_rect (meet_rect a b) c))).
+Proof.
+  intros Ha Hb Hc. rewrite inter_value by assumption. unfold meet_val.
+  destruct (error_operand NULL_ERROR (norm s c) null_is_code) as (_ & EL & _).
+  destruct (empty_rect (meet_rect a b)) eqn:Eab; cbn [bind].
+  - rewrite EL. replace (empty_rect (meet_rect (meet_rect a b) c)) with true; [reflexivity|].
+    symmetry. unfold empty_rect in *. cbn [meet_rect x1 x2 y1 y2] in *.
+    rewrite orb_true_iff, !Z.ltb_lt in *. lia.
+  - rewrite inter_value by (try apply meet_wf; assumption). reflexivity.
 Qed.
 
 (* different sheets: #VALUE!, for any two addresses *)
 Lemma different_sheets mn mx x y : a_sheet x <> [] -> a_sheet y <> [] -> a_sheet x <> a_sheet y ->
   union_intersection mn mx x (VA y) = Ok (VE VALUE_ERROR).
 Proof.
-  intros Hx Hy Hne. unfold union_intersection.
+  intros Hx Hy Hne. unfold union_intersection, ui_core.
   destruct (a_sheet x) as [|cx sx]; [congruence|]. destruct (a_sheet y) as [|cy sy]; [congruence|].
   cbn [nonempty andb].
   destruct (str_eqb (cx :: sx) (cy :: sy)) eqn:E; [apply str_eqb_eq in E; congruence|reflexivity].
@@ -364,3 +396,94 @@ Qed.
 Lemma different_sheets_both x y : a_sheet x <> [] -> a_sheet y <> [] -> a_sheet x <> a_sheet y ->
   op_inter (VA x) (VA y) = Ok (VE VALUE_ERROR) /\ op_union (VA x) (VA y) = Ok (VE VALUE_ERROR).
 Proof. intros Hx Hy Hn. split; apply different_sheets; assumption. Qed.
+
+(* ------------------------------- ** across sheets, with #VALUE! handed on *)
+Definition conflict (s1 s2 : str) : bool := nonempty s1 && nonempty s2 && negb (str_eqb s1 s2).
+Definition pick (s1 s2 : str) : str := if nonempty s1 then s1 else s2.
+Lemma value_is_code : is_error_code VALUE_ERROR = true.
+Proof. reflexivity. Qed.
+
+Lemma union_value_sheets sa sb a b : wf a -> wf b ->
+  op_union (VA (norm sa a)) (VA (norm sb b))
+  = if conflict sa sb then Ok (VE VALUE_ERROR) else Ok (VA (norm (pick sa sb) (join_rect a b))).
+Proof.
+  intros Ha Hb.
+  destruct (norm_fields sa a Ha) as (As & Ac & Ar & Aw & Ah).
+  destruct (norm_fields sb b Hb) as (Bs & Bc & Br & Bw & Bh).
+  destruct Ha as (Ax & Ax' & Ay & Ay'). destruct Hb as (Bx & Bx' & By & By').
+  unfold op_union, binop, union_intersection, ui_core.
+  rewrite As, Bs, Ac, Bc, Ar, Br, Aw, Bw, Ah, Bh. fold (conflict sa sb). fold (pick sa sb).
+  destruct (conflict sa sb); [reflexivity|].
+  replace (Z.max (x1 a + (x2 a - x1 a + 1)) (x1 b + (x2 b - x1 b + 1)) - 1)
+    with (Z.max (x2 a) (x2 b)) by lia.
+  replace (Z.max (y1 a + (y2 a - y1 a + 1)) (y1 b + (y2 b - y1 b + 1)) - 1)
+    with (Z.max (y2 a) (y2 b)) by lia.
+  replace (Z.max (x2 a) (x2 b) <? Z.min (x1 a) (x1 b)) with false by (symmetry; apply Z.ltb_ge; lia).
+  replace (Z.max (y2 a) (y2 b) <? Z.min (y1 a) (y1 b)) with false by (symmetry; apply Z.ltb_ge; lia).
+  cbn [orb].
+  apply (norm_build (pick sa sb) (join_rect a b)); cbn [join_rect x1 x2]; unfold MAX_COL in *; lia.
+Qed.
+
+(* the sheet of a three-way combination does not depend on the grouping *)
+Definition sheet2 (s1 s2 : str) : option str := if conflict s1 s2 then None else Some (pick s1 s2).
+Definition sheet3_l (sa sb sc : str) : option str :=
+  match sheet2 sa sb with None => None | Some s => sheet2 s sc end.
+Definition sheet3_r (sa sb sc : str) : option str :=
+  match sheet2 sb sc with None => None | Some s => sheet2 sa s end.
+Lemma sheet3_assoc sa sb sc : sheet3_l sa sb sc = sheet3_r sa sb sc.
+Proof.
+  unfold sheet3_l, sheet3_r, sheet2, conflict, pick.
+  destruct (nonempty sa) eqn:Na; destruct (nonempty sb) eqn:Nb; destruct (nonempty sc) eqn:Nc;
+    cbn [negb andb]; rewrite ?Na, ?Nb, ?Nc; cbn [negb andb]; try reflexivity;
+    destruct (str_eqb sa sb) eqn:E1; destruct (str_eqb sb sc) eqn:E2; destruct (str_eqb sa sc) eqn:E3;
+    cbn [negb andb]; rewrite ?Na, ?Nb, ?Nc, ?E1, ?E2, ?E3; cbn [negb andb]; try reflexivity;
+    try (apply str_eqb_eq in E1; subst); try (apply str_eqb_eq in E2; subst);
+    try (apply str_eqb_eq in E3; subst); rewrite ?str_eqb_refl in *; try discriminate; try congruence.
+Qed.
+
+(* three-way ** on any sheets: #VALUE! if two named sheets differ, else the bounding rectangle *)
+Lemma union_three_l sa sb sc a b c : wf a -> wf b -> wf c ->
+  bind (op_union (VA (norm sa a)) (VA (norm sb b))) (fun x => op_union x (VA (norm sc c)))
+  = Ok (match sheet3_l sa sb sc with
+        | None => VE VALUE_ERROR
+        | Some s => VA (norm s (join_rect (join_rect a b) c))
+        end).
+Proof.
+  intros Ha Hb Hc. rewrite union_value_sheets by assumption. unfold sheet3_l, sheet2.
+  destruct (conflict sa sb); cbn [bind].
+  - destruct (error_operand VALUE_ERROR (norm sc c) value_is_code) as (_ & _ & _ & E). exact E.
+  - rewrite union_value_sheets by (try apply join_wf; assumption).
+    destruct (conflict (pick sa sb) sc); reflexivity.
+Qed.
+Lemma union_three_r sa sb sc a b c : wf a -> wf b -> wf c ->
+  bind (op_union (VA (norm sb b)) (VA (norm sc c))) (fun x => op_union (VA (norm sa a)) x)
+  = Ok (match sheet3_r sa sb sc with
+        | None => VE VALUE_ERROR
+        | Some s => VA (norm s (join_rect a (join_rect b c)))
+        end).
+Proof.
+  intros Ha Hb Hc. rewrite union_value_sheets by assumption. unfold sheet3_r, sheet2.
+  destruct (conflict sb sc); cbn [bind].
+  - destruct (error_operand VALUE_ERROR (norm sa a) value_is_code) as (_ & _ & E & _). exact E.
+  - rewrite union_value_sheets by (try apply join_wf; assumption).
+    destruct (conflict sa (pick sb sc)); reflexivity.
+Qed.
+Lemma union_assoc_sheets sa sb sc a b c : wf a -> wf b -> wf c ->
+  bind (op_union (VA (norm sa a)) (VA (norm sb b))) (fun x => op_union x (VA (norm sc c)))
+  = bind (op_union (VA (norm sb b)) (VA (norm sc c))) (fun x => op_union (VA (norm sa a)) x).
+Proof.
+  intros Ha Hb Hc. rewrite union_three_l, union_three_r by assumption.
+  rewrite sheet3_assoc.
+  assert (E : join_rect (join_rect a b) c = join_rect a (join_rect b c)) by (apply rect_eq; cbn; lia).
+  rewrite E. reflexivity.
+Qed.
+
+(* & across sheets is NOT associative up to the error code: with a, b disjoint on
+   compatible sheets and b, c on two different named sheets the groupings give
+   #NULL! and #VALUE! *)
+Example inter_sheets_not_assoc :
+  bind (op_inter (VA (ACell [] 1 1)) (VA (ACell [83] 2 2))) (fun x => op_inter x (VA (ACell [84] 2 2)))
+    = Ok (VE NULL_ERROR)
+  /\ bind (op_inter (VA (ACell [83] 2 2)) (VA (ACell [84] 2 2))) (fun x => op_inter (VA (ACell [] 1 1)) x)
+    = Ok (VE VALUE_ERROR).
+Proof. vm_compute. split; reflexivity. Qed.
